@@ -216,6 +216,73 @@ def rule_zero_after_report(ctx, rep):
         raise AnalysisError("run() has no return after apply_codemods/write_report")
 
 
+def rule_ai_config(ctx, rep):
+    rep.rule(
+        "R-AI-CONFIG",
+        "in codemodder.llm every function that raises MisconfiguredAIClient under a consistency condition C returns a constructed "
+        "client only on paths where C has been evaluated to false (the check dominates every client-returning exit), and run() maps "
+        "that exception to status 3",
+        min_instances=3,
+    )
+    mod = ctx.prog.module("codemodder.llm")
+    n = 0
+    for fn in [f for f in ctx.prog.functions.values() if f.module is mod and f.cls is None]:
+        raises = [r_ for r_ in walk_no_nested(fn.node) if isinstance(r_, ast.Raise) and r_.exc is not None and "MisconfiguredAIClient" in unparse(r_.exc)]
+        if not raises:
+            continue
+        fa = ctx.flow(fn)
+        conds = set()
+        for r_ in raises:
+            par = ctx.parents(fn).get(id(r_))
+            if isinstance(par, ast.If):
+                conds.add(unparse(par.test))
+        for ex in fa.exits:
+            if ex.kind != "return" or not isinstance(ex.value, ast.Call):
+                continue
+            n += 1
+            ok = bool(conds) and all((False, c) in ex.state.must for c in conds)
+            rep.check("R-AI-CONFIG", fn.qname, fn.loc(ex.node), ok, f"return {unparse(ex.value.func)}",
+                      f"a client is returned on a path where the consistency check `{sorted(conds)[0] if conds else '?'}` has not been evaluated: "
+                      "an inconsistent AI configuration then completes with status 0 instead of 3")
+    run = ctx.prog.func(RUN)
+    handlers = [h for h in ast.walk(run.node) if isinstance(h, ast.ExceptHandler) and h.type is not None and "MisconfiguredAIClient" in unparse(h.type)]
+    ok = bool(handlers) and all(any(isinstance(st, ast.Return) and isinstance(st.value, ast.Constant) and st.value.value == 3 for st in h.body) for h in handlers)
+    rep.check("R-AI-CONFIG", run.qname, run.loc(handlers[0]) if handlers else run.loc(), ok, "handler->3", "run() does not map MisconfiguredAIClient to status 3")
+    # the context constructor is what raises it, inside that try
+    ctor_in_try = False
+    for tr in [t for t in ast.walk(run.node) if isinstance(t, ast.Try)]:
+        if any("MisconfiguredAIClient" in unparse(h.type) for h in tr.handlers if h.type is not None):
+            ctor_in_try = any(isinstance(c, ast.Call) and last_attr(c.func) == "CodemodExecutionContext" for st in tr.body for c in ast.walk(st))
+    rep.check("R-AI-CONFIG", run.qname, run.loc(), ctor_in_try, "ctor-in-try", "the execution context (which sets up the AI clients) is not constructed inside the try that maps the error to 3")
+    if n < 2:
+        raise AnalysisError("client-returning exits of the llm setup functions not found")
+
+
+def rule_report_try_minimal(ctx, rep):
+    rep.rule(
+        "R-REPORT-TRY-MINIMAL",
+        "in CodeTF.write_report the try block whose handler yields status 2 contains nothing fallible after the report text has been "
+        "written (otherwise a fully written report is answered with status 2)",
+        min_instances=1,
+    )
+    fn = ctx.prog.func(WRITE_REPORT)
+    tries = [t for t in walk_no_nested(fn.node) if isinstance(t, ast.Try)]
+    if not tries:
+        raise AnalysisError("write_report has no try block")
+    for tr in tries:
+        writes = [c for st in tr.body for c in ast.walk(st) if isinstance(c, ast.Call) and last_attr(c.func) in ("write", "dump")]
+        if not writes:
+            continue
+        wline = max(c.lineno for c in writes)
+        later = [
+            c for st in tr.body for c in ast.walk(st)
+            if isinstance(c, ast.Call) and c.lineno > wline and not (unparse(c.func).startswith(("logger.", "logging.")))
+        ]
+        rep.check("R-REPORT-TRY-MINIMAL", fn.qname, fn.loc(later[0]) if later else fn.loc(tr), not later, "after-write",
+                  "calls " + ", ".join(f"`{unparse(c)[:40]}`" for c in later[:3]) + " follow the write inside the try whose handler returns 2: "
+                  "if they fail (e.g. fsync on a pipe) the report is written and the run still exits 2")
+
+
 def check(ctx, rep):
     rep.explanation = (
         "Every `return <int>` of run(), every sys.exit/parser.exit reachable from main() and every call site of the two "
@@ -225,4 +292,6 @@ def check(ctx, rep):
     rule_status_used(ctx, rep)
     rule_status_map(ctx, rep)
     rule_zero_after_report(ctx, rep)
+    rule_ai_config(ctx, rep)
+    rule_report_try_minimal(ctx, rep)
     rep.not_covered += ["which argument vectors argparse itself rejects", "exceptions escaping run() (traceback, status 1 from the interpreter)"]
